@@ -28,8 +28,9 @@ type mSvc struct {
 }
 
 type mHandler struct {
-	Pattern string `json:"pattern"`
-	ID      int    `json:"id"`
+	Pattern    string `json:"pattern"`
+	ID         int    `json:"id"`
+	WithFilter bool   `json:"with_filter"` // registered through HandleWithFilter
 }
 
 type mModel struct {
@@ -117,7 +118,11 @@ func (m *mModel) fresh(router string, options bool) *restful.Container {
 		c.Add(newWS(s))
 	}
 	for _, h := range m.Handlers {
-		c.Handle(h.Pattern, c11Handler(h.ID))
+		if h.WithFilter {
+			c.HandleWithFilter(h.Pattern, c11Handler(h.ID))
+		} else {
+			c.Handle(h.Pattern, c11Handler(h.ID))
+		}
 	}
 	return c
 }
@@ -183,7 +188,7 @@ func respSig(o *rt.Outcome) string {
 
 func c11(ctx *core.Ctx) {
 	quietLogs()
-	ctx.Rule("generated histories of 4-20 operations over {Add, Remove, Route, RemoveRoute, Handle} on a root-path pool built to collide (/, '', /a, /a/, /a/b, /a/{x}, /a/{x}/b, /a/{y}/c, /ab, /{z}, /u, /u/, /u/{a}, /users/{id}/a, /users/{id}/b, /{p}/{q} ...), dynamic and static services, duplicate (method,path) routes with different Produces, both routers, with and without the OPTIONS filter. After EVERY operation a fresh container is built from the model (new objects, same order) and ~250 probe requests (hits, near misses, handler patterns, strays; GET/POST/OPTIONS/DELETE) are answered via ServeHTTP and Dispatch by both; complete responses must be equal. Add/Handle must not panic. Non-trivial = a history prefix containing a Remove/RemoveRoute or >= 2 services; distinct by (operation kind, number of services, root-on-'/' present, handlers present, router).")
+	ctx.Rule("generated histories of 4-20 operations over {Add, Remove, Route, RemoveRoute, Handle, HandleWithFilter} on a root-path pool built to collide (/, '', /a, /a/, /a/b, /a/{x}, /a/{x}/b, /a/{y}/c, /ab, /{z}, /u, /u/, /u/{a}, /users/{id}/a, /users/{id}/b, /{p}/{q} ...), dynamic and static services, duplicate (method,path) routes with different Produces, both routers, with and without the OPTIONS filter. After EVERY operation a fresh container is built from the model (new objects, same order) and ~250 probe requests (hits, near misses, handler patterns, strays; GET/POST/OPTIONS/DELETE) are answered via ServeHTTP and Dispatch by both; complete responses must be equal. Add/Handle must not panic. Non-trivial = a history prefix containing a Remove/RemoveRoute or >= 2 services; distinct by (operation kind, number of services, root-on-'/' present, handlers present, router).")
 	ctx.Assume("histories never add a duplicate root path (the library exits by contract) and never register a handler pattern twice")
 	hists := ctx.N(250, 5000)
 	nextID := 0
@@ -330,10 +335,15 @@ func c11(ctx *core.Ctx) {
 						}
 					}
 					nextID++
-					desc = fmt.Sprintf("Handle(%q id=%d)", pat, nextID)
+					wf := r.Chance(1, 2)
+					desc = fmt.Sprintf("Handle(%q id=%d withFilter=%v)", pat, nextID, wf)
 					opsLog = append(opsLog, desc)
-					m.Handlers = append(m.Handlers, mHandler{pat, nextID})
-					c.Handle(pat, c11Handler(nextID))
+					m.Handlers = append(m.Handlers, mHandler{pat, nextID, wf})
+					if wf {
+						c.HandleWithFilter(pat, c11Handler(nextID))
+					} else {
+						c.Handle(pat, c11Handler(nextID))
+					}
 				}
 			}()
 			ctx.Eval(1)
